@@ -512,8 +512,12 @@ class TypesGen:
             spec = (f'impl PartialOrdSpecImpl for {X} {{\n    open spec fn obeys_partial_cmp_spec() -> bool {{ true }}\n'
                     f'    open spec fn partial_cmp_spec(&self, other: &{X}) -> Option<Ordering> {{ {fam}_cmp_spec(*self, *other) }}\n}}\n')
             head = f'impl PartialOrd for {X} {{'
-        self.sink(X).append(spec + head + '\n    ' + self.marker(f'{c.header_norm().replace(" ", "")}::{which}', [prop, 'C18'], fn)
-                            + '\n' + self.fn_text(fn) + '\n}\n')
+        body = ''
+        # every method the impl defines is emitted (an overriding `ne`, `lt`, `le`, `gt`, `ge` is checked by
+        # Verus against vstd's specification of that method in terms of eq_spec / partial_cmp_spec)
+        for f in self.fn_children(c):
+            body += '    ' + self.marker(f'{c.header_norm().replace(" ", "")}::{f.name}', [prop, 'C18'], f) + '\n' + self.fn_text(f) + '\n'
+        self.sink(X).append(spec + head + '\n' + body + '}\n')
 
     def emit_like_op(self, qt, c, op):
         X = qt.name
@@ -572,7 +576,8 @@ class TypesGen:
     def emit_rate(self, qt, c, which):
         X = qt.name
         fn = self.fn_children(c)[0]
-        body, n = rewrite_as_qty_calls(fn.body_text(), 'Self')
+        whole = rewrite_literals(fn, self.lits)
+        body, n = rewrite_as_qty_calls(whole[fn.toks[fn.body_open].start - fn.start:], 'Self')
         if n != 1:
             raise LostAnchor(f'{c.header_norm()}: expected one .as_qty() call')
         sig = rsparse.FnSig(fn)
@@ -643,9 +648,12 @@ def build_types_units(exp_text, label, unit_prefix, modules=None, crate_root=Fal
     # --- types with reference unit: built on gen_hasref ---
     em = gen_verus.Emitter(unit_prefix + '_ref', gen_verus.Contracts('generic.toml'), lits=tg.lits)
     tg_ref_unit = unit_prefix + '_ref'
-    parts = [em.render(f, subst) for f in ('shim_m0.vrs', 'traits_core.vrs', 'hasref_specs.vrs', 'trait_hasref.vrs',
-                                           'one_amount.vrs', 'one_hasref.vrs', 'rate.vrs', 'derived_specs.vrs')]
+    parts = [em.render('shim_m0.vrs', subst), em.render('traits_core.vrs', subst, quantity_defaults='renamed')]
+    parts += [em.render(f, subst) for f in ('hasref_specs.vrs', 'trait_hasref.vrs', 'one_amount.vrs', 'one_hasref.vrs', 'rate.vrs',
+                                            'derived_specs.vrs', 'lemmas_quantity_m0.vrs')]
     body_ref = '\n'.join(tg.out_ref).replace(f'id={unit_prefix}:', f'id={tg_ref_unit}:')
+    # R4: calls of Quantity's own default methods from a type with reference unit go to the renamed copies
+    body_ref = re.sub(r'<\s*Self\s+as\s+Quantity\s*>\s*::\s*(eq|partial_cmp|add|sub|div)\s*\(', r'<Self as Quantity>::q_\1(', body_ref)
     body_noref = '\n'.join(tg.out_noref).replace(f'id={unit_prefix}:', f'id={unit_prefix}_noref:')
     if tg.out_noref:
         em2 = gen_verus.Emitter(unit_prefix + '_noref', gen_verus.Contracts('generic.toml'), lits=tg.lits)
